@@ -899,6 +899,20 @@ def fixed_schemas():
             u.idents.append(["ux", ["old:x"]])
             mods.append(s)
         out.append(mk("rev", *mods))
+    # wholeModule: a submodule queued twice, followed by one with an include nobody else has
+    m = Mod("m", False, "m")
+    sa, sb, sd, se, sf = [Mod(n, True, "m", "m") for n in ("sa", "sb", "sd", "se", "sf")]
+    m.includes = [("sa", ""), ("sb", "")]
+    sa.includes = [("sd", "")]
+    sb.includes = [("sd", ""), ("se", "")]
+    se.includes = [("sf", "")]
+    m.idents = [["ROOT", []]]
+    for part in (sa, sb, sd, se, sf):
+        part.idents = [["in-" + part.name, ["ROOT"]]]
+    m.leaves = [("l0", "ref", "ROOT")]
+    sc = mk("clean", m, sa, sb, sd, se, sf)
+    sc.edges = [((part, "in-" + part.name), (m, "ROOT")) for part in (sa, sb, sd, se, sf)]
+    out.append(sc)
     # two revisions of one module bind one prefix to different modules
     a = Mod("a", False, "a")
     b = Mod("b", False, "b")
@@ -1022,10 +1036,131 @@ def run_family(schemas, family, timeout=900):
     return res
 
 
+def gen_wide(rnd, n=None):
+    """large derivation graphs with several bases per identity: ROOT, a few identities derived from it, and n
+    identities each derived from several of those (so that the closure of ROOT reaches most of its members along
+    more than one path), optionally with chains below; over one or two modules"""
+    sc = Schema()
+    a = Mod("w", False, "w")
+    sc.mods = [a]
+    parts = [a]
+    if rnd.random() < 0.4:
+        b = Mod("w2", False, "x")
+        b.imports = [("w", "w", "")]
+        sc.mods.append(b)
+        parts.append(b)
+    n = n if n is not None else rnd.choice([30, 31, 32, 33, 34, 40, 64, 100, rnd.randint(20, 70)])
+    edges = []
+    a.idents.append(["ROOT", []])
+    decls = [(a, "ROOT")]
+    mids = []
+    for j in range(rnd.choice([2, 2, 3])):
+        p = rnd.choice(parts)
+        nm = "MID-%s" % "ABC"[j]
+        p.idents.append([nm, [("w:" if p is not a or rnd.random() < 0.5 else "") + "ROOT"]])
+        edges.append(((p, nm), (a, "ROOT")))
+        mids.append((p, nm))
+
+    def ref(src, tp, tn):
+        if tp is src:
+            return rnd.choice(["", src.prefix + ":"]) + tn
+        return "w:" + tn        # only w2 refers to w
+    names = ["n%03d" % i for i in range(n)]
+    rnd.shuffle(names)
+    kids = []
+    for nm in names:
+        p = rnd.choice(parts)
+        cand = [m for m in mids if m[0] is p or m[0] is a]
+        bases = rnd.sample(cand, min(len(cand), rnd.choice([2, 2, 2, 3, 1])))
+        p.idents.append([nm, [ref(p, bp, bn) for bp, bn in bases]])
+        edges += [((p, nm), bb) for bb in bases]
+        kids.append((p, nm))
+    # deep and wide: chains and diamonds below some of them
+    for i in range(rnd.choice([0, 0, 3, 10])):
+        p = rnd.choice(parts)
+        cand = [k for k in kids if k[0] is p or k[0] is a]
+        bases = rnd.sample(cand, min(len(cand), rnd.choice([1, 2, 2])))
+        nm = "deep%d" % i
+        p.idents.append([nm, [ref(p, bp, bn) for bp, bn in bases]])
+        edges += [((p, nm), bb) for bb in bases]
+        kids.append((p, nm))
+    for p in parts:
+        rnd.shuffle(p.idents)
+    leaf_holder = rnd.choice(parts)
+    leaf_holder.leaves.append(("lw", "ref", ref(leaf_holder, a, "ROOT")))
+    sc.edges = edges
+    sc.variant = "clean"
+    rnd.shuffle(sc.mods)
+    return sc
+
+
+def gen_includes(rnd):
+    """one module and 4-6 submodules whose include statements form a random DAG (diamonds, duplicates in
+    wholeModule's queue followed by chains), identities in every submodule"""
+    sc = Schema()
+    names = rnd.sample(NAMES, rnd.choice([5, 6, 7]))
+    m = Mod(names[0], False, rnd.choice(PREFIXES))
+    subs = [Mod(n, True, rnd.choice([m.prefix, m.prefix, rnd.choice(PREFIXES)]), m.name) for n in names[1:]]
+    dens = rnd.choice([0.25, 0.4, 0.6])
+    for i, s in enumerate(subs):
+        for t in subs[i + 1:]:
+            if rnd.random() < dens:
+                s.includes.append((t.name, ""))
+        rnd.shuffle(s.includes)
+    tops = [s for s in subs if rnd.random() < 0.4] or [subs[0]]
+    m.includes = [(s.name, "") for s in tops]
+    rnd.shuffle(m.includes)
+    if len(subs) >= 5 and rnd.random() < 0.5:
+        # planted: a submodule queued twice by wholeModule, the duplicate followed by one with an include of its own
+        pa, pb, pd, pe, pf = subs[:5]
+        extra = [inc for s in subs for inc in s.includes if rnd.random() < 0.15]
+        for s in subs:
+            s.includes = [inc for inc in s.includes if inc in extra]
+        def add(x, y):
+            if (y.name, "") not in x.includes:
+                x.includes.append((y.name, ""))
+        m.includes = [(pa.name, ""), (pb.name, "")] + [(s.name, "") for s in subs[5:] if rnd.random() < 0.3]
+        add(pa, pd)
+        add(pb, pd)
+        add(pb, pe)
+        add(pe, pf)
+        if rnd.random() < 0.3:
+            rnd.shuffle(pb.includes)
+    sc.mods = [m] + subs
+    vis = sc.visible_parts()
+    for s in subs:
+        if not any(s is q for q in vis):
+            s.includes = []
+    decls, edges = [], []
+    for pi, part in enumerate([m] + subs):
+        for k in range(rnd.choice([1, 1, 2])):
+            nm = rnd.choice(["i%d-%d", "z%d-%d", "A%d.%d"]) % (pi, k)
+            bases = []
+            if any(part is q for q in vis):
+                for bp, bn in rnd.sample(decls, min(len(decls), rnd.choice([0, 1, 1, 2]))):
+                    if any(bp is q for q in vis):
+                        bases.append(rnd.choice(["", part.prefix + ":"]) + bn)
+                        edges.append(((part, nm), (bp, bn)))
+            part.idents.append([nm, bases])
+            decls.append((part, nm))
+    if vis:
+        h = rnd.choice(vis)
+        bp, bn = rnd.choice([dd for dd in decls if any(dd[0] is q for q in vis)])
+        h.leaves.append(("li", "ref", rnd.choice(["", h.prefix + ":"]) + bn))
+    sc.edges = edges
+    sc.variant = "clean"
+    rnd.shuffle(sc.mods)
+    sc.late = rnd.sample(subs, rnd.randint(1, len(subs))) if rnd.random() < 0.5 else []
+    return sc
+
+
 def gen(tier, seed):
     rnd = random.Random(seed)
     n = 4000 if tier == "quick" else 60000
-    return fixed_schemas() + [gen_schema(rnd) for _ in range(n)]
+    wide = [gen_wide(rnd, k) for k in (30, 31, 32, 33, 34, 40, 64, 100)] + \
+           [gen_wide(rnd) for _ in range(30 if tier == "quick" else 300)]
+    incl = [gen_includes(rnd) for _ in range(400 if tier == "quick" else 6000)]
+    return fixed_schemas() + wide + incl + [gen_schema(rnd) for _ in range(n)]
 
 
 def replay_of(sc):
@@ -1077,7 +1212,10 @@ def run(res, tier, seed, proof):
              "free-form mutations (duplicate import prefixes, foreign includes, unloaded belongs-to, random bases) / rev: "
              "2-3 loaded revisions of one module (sometimes of a submodule too) with the same and different "
              "identities, submodules included by one or several revisions, pinned and unpinned imports -- no "
-             "expectation, the model decides (rev_accepted counts the accepted ones); "
+             "expectation, the model decides (rev_accepted counts the accepted ones); two more generators: wide "
+             "derivation graphs (ROOT, 2-3 identities derived from it, 30..100 identities derived from several of "
+             "those, chains below) and include graphs (one module, 4-6 submodules, random include DAG with diamonds "
+             "and chains, identities in every submodule); "
              "each schema: %d implementation runs, %d model runs with different iteration oracles; family auto-loaded: "
              "for most schemas one more implementation run in which a subset of the imported modules / included "
              "submodules is not parsed but put on the search path, so that Process loads it itself -- the result "
